@@ -285,7 +285,7 @@ let () =
           for _ = 1 to 8 do emit_case emit stream ~spec:false ver fmt asz f (random_subset r cnt); incr made done
       done);
   register "c19.sites"
-    ~doc:"forests with every reference carrier the converter resolves (also DW_OP_implicit_pointer, DW_OP_GNU_variable_value, operations inside DW_OP_entry_value, location-list entries skipped by LocListIter), valid targets only; expected = closure over ALL references (the property)"
+    ~doc:"forests with every reference carrier the converter resolves (also DW_OP_implicit_pointer, DW_OP_GNU_variable_value, operations inside DW_OP_entry_value, location-list entries skipped by LocListIter), valid targets only; expected = the model of the (repaired) filter, proved equal to the closure over ALL references"
     (fun ~seed ~n emit ->
       let stream = "c19.sites" in
       (* exhaustive: a (required) -> b through every carrier x operation x nesting 0/1, b otherwise unreachable *)
@@ -297,7 +297,7 @@ let () =
               (* b first so that typed operations may name it; both at the root level, type-like tags *)
               let u = [ { depth = 1; tag = t_base; decl = false; sites = [] };
                         { depth = 1; tag = t_struct; decl = false; sites = [ { car; op; nest; tgt = TEnt 0 } ] } ] in
-              List.iter (fun req -> emit_case emit stream ~spec:true ver fmt asz [ u ] req) (subsets 2)
+              List.iter (fun req -> emit_case emit stream ~spec:false ver fmt asz [ u ] req) (subsets 2)
             done
           done
         done) [ (4, 4, 8); (5, 4, 8); (5, 8, 8); (2, 4, 4) ];
@@ -311,9 +311,9 @@ let () =
         let f = gen_forest r ~ver ~sizes:(split_sizes r total nunits) ~cars:cars_all ~nesting:true ~invalid:0 ~maxsites:2 in
         let cnt = count f in
         if cnt <= 10 then
-          List.iter (fun req -> emit_case emit stream ~spec:true ver fmt asz f req; incr made) (subsets cnt)
+          List.iter (fun req -> emit_case emit stream ~spec:false ver fmt asz f req; incr made) (subsets cnt)
         else
-          for _ = 1 to 8 do emit_case emit stream ~spec:true ver fmt asz f (random_subset r cnt); incr made done
+          for _ = 1 to 8 do emit_case emit stream ~spec:false ver fmt asz f (random_subset r cnt); incr made done
       done);
   register "c19.tags"
     ~doc:"has_die_back_edge: every tag 0x01..0x50 and every vendor tag of constants.rs x parent tag in {structure_type, namespace, subprogram, lexical_block} x DW_AT_declaration x (parent required | child required); then random 16-bit tags"
